@@ -89,6 +89,13 @@ def search(ctx, factor):
     before = len(ctx.fails)
     oracle(ctx, ctx.scale(1500, 8000) * factor, "search", salt=77)
     mergecorr(ctx, ctx.scale(400, 2000) * factor, "search-merge", salt=78, compare=False)
+    if len(ctx.fails) == before:
+        # nothing deterministic: a broken obligation of the goroutine tables may be a data race (the oracle's
+        # histories include several unparseable files per worker); run them under the race detector
+        ok, out = C.build_harness(race=True)
+        ctx.log("go build -race (search)", out[-1000:])
+        if ok:
+            oracle(ctx, 800 * factor, "search-race", salt=79, race=True)
     found = ctx.fails[before:]
     del ctx.fails[before:]
     return found
